@@ -1119,6 +1119,26 @@ impl NameResolution {
         hir_table: &mut HirTable,
     ) -> hir::PatId {
         match pat {
+            ast::Pat::PVar { name, astptr }
+                if ctx
+                    .constructor_index
+                    .has_variant(ctx.current_package, &name.0) =>
+            {
+                // Lowering decides "constructor or variable" per file; a bare identifier
+                // that names a variant declared in another file of this package reaches
+                // us as a variable. It is the same constructor pattern as in the
+                // declaring file, not a binding that matches everything.
+                let path = ast::Path::from_ident(name.clone());
+                let constructor = self.normalize_constructor_path(&path, ctx);
+                self.alloc_pat_with_ptr(
+                    hir_table,
+                    *astptr,
+                    hir::Pat::PConstr {
+                        constructor: hir::ConstructorRef::Unresolved(constructor),
+                        args: Vec::new(),
+                    },
+                )
+            }
             ast::Pat::PVar { name, astptr } => {
                 let newname = self.fresh_name(&name.0, hir_table);
                 env.add(name, newname);
